@@ -278,7 +278,7 @@ def run(st, tier, seed):
                     rr.append(("wild",)); wild = True
             reps.append(rr)
 
-        def build():
+        def build(doms=doms, reps=reps):
             comp = Component("c", "", [])
             names = []
             for si, dm in enumerate(doms):
@@ -325,6 +325,33 @@ def run(st, tier, seed):
         reqs.append({"op": "domain-expand", "s": d, "doms": doms}); impls.append(r)
         if i < 2:
             res.sample({"domain_struct": d, "domain_lengths": doms, "impl": r})
+        # the same description over the same strands (same component / strand names, same strand lengths) with the domain boundaries
+        # moved: what was expanded before in this process must not matter
+        if not broken:
+            cand = [(si, [k for k, c in enumerate(sg) if c == "."]) for si, sg in enumerate(segs)]
+            cand = [(si, ks) for si, ks in cand if len(ks) >= 2 and sum(doms[si][k] for k in ks) >= 1]
+            if cand:
+                si, ks = rng.choice(cand)
+                doms2 = [list(x) for x in doms]
+                for _ in range(8):
+                    a_, b_ = rng.sample(ks, 2)
+                    if doms2[si][a_] > 0:
+                        mv = rng.randint(1, doms2[si][a_])
+                        doms2[si][a_] -= mv; doms2[si][b_] += mv
+                        break
+                if doms2 != doms:
+                    reps2 = [[("base",) if rng.random() < 0.7 else ("quoted",) for _ in dm] for dm in doms2]
+                    expected2 = "+".join("".join(c * n for c, n in zip(sg, dm)) for sg, dm in zip(segs, doms2))
+                    r2 = call(lambda: build(doms2, reps2))
+                    res.evaluations += 1
+                    res.count("domain-level:same-strands-other-domain-boundaries")
+                    if r2 != {"ok": expected2}:
+                        res.violations.append({"what": "domain-level description does not expand to its structure when the same strands were "
+                                                       "expanded with other domain boundaries earlier in the process",
+                                               "input": {"domain_struct": d, "first_domain_lengths": doms, "then_domain_lengths": doms2},
+                                               "expected": expected2, "observed": r2, "sig": "C08:domain-history",
+                                               "cmd": "Component('c').add_structure(... 'domain %s') with domain lengths %r, then a new Component('c') with %r" % (d, doms, doms2)})
+                    reqs.append({"op": "domain-expand", "s": d, "doms": doms2}); impls.append(r2)
 
     # wrongly sized: a strand of the wrong length must be rejected (Structure.__init__)
     for i in range(40 if tier == "quick" else 400):
